@@ -325,11 +325,24 @@ type TCPConn struct {
 }
 
 func (n *Net) newConn(name string, c net.Conn) *TCPConn {
+	t := n.newConnObj(name, c)
+	t.start()
+	return t
+}
+
+// newConnObj creates the connection object without starting its reader, so
+// that a listener can register it before the first observation can appear.
+func (n *Net) newConnObj(name string, c net.Conn) *TCPConn {
 	t := &TCPConn{ID: int(atomic.AddInt32(&n.connSeq, 1)), Name: name, Local: c.LocalAddr().String(), Peer: c.RemoteAddr().String(), c: c, n: n}
 	if sc, ok := c.(syscall.Conn); ok {
 		n.addSock(sc)
 	}
 	n.onClose(func() { c.Close() })
+	return t
+}
+
+func (t *TCPConn) start() {
+	n, c, name := t.n, t.c, t.Name
 	go func() {
 		var pend []byte
 		b := make([]byte, 65536)
@@ -361,7 +374,6 @@ func (n *Net) newConn(name string, c net.Conn) *TCPConn {
 			}
 		}
 	}()
-	return t
 }
 
 // Dial opens a TCP connection from local ("ip:0" or "ip:port") to dst.
@@ -439,7 +451,7 @@ func (n *Net) Listen(name, addr string) (*TCPListener, error) {
 				return
 			}
 			c.(*net.TCPConn).SetNoDelay(true)
-			t := n.newConn(name, c)
+			t := n.newConnObj(name, c)
 			l.mu.Lock()
 			l.conns = append(l.conns, t)
 			l.mu.Unlock()
@@ -447,6 +459,8 @@ func (n *Net) Listen(name, addr string) (*TCPListener, error) {
 			n.accepts[name]++
 			n.cond.Broadcast()
 			n.mu.Unlock()
+			// only now may its first message be observed (ConnByID must find it)
+			t.start()
 		}
 	}()
 	return l, nil
